@@ -53,7 +53,20 @@ pub struct Caps {
     pub clone: bool,
 }
 
+/// Target of a `From<Enc>` conversion.
+#[derive(Clone, Copy, PartialEq, Eq, Debug, Hash, serde::Serialize, serde::Deserialize)]
+pub enum Target {
+    Full,
+    Dec,
+}
+
 pub trait Inst: Send + Sync {
+    /// `Target::from(&self)` if this is an encrypt-only instance with such a conversion.
+    fn convert_ref(&self, _target: Target) -> Option<Box<dyn Inst>> {
+        None
+    }
+    /// `Target::from(self)`; gives the instance back if there is no such conversion.
+    fn convert_val(self: Box<Self>, _target: Target) -> Result<Box<dyn Inst>, Box<dyn Inst>>;
     /// In-place multi-block call on `data` (length a multiple of the block size).
     fn blocks(&self, dir: Dir, data: &mut [u8]);
     /// In-place single-block call.
@@ -270,6 +283,14 @@ impl<T> DbgDyn<T> for DbgNo {
     }
 }
 
+/// Conversions out of an encrypt-only type (AES, Kuznyechik).
+pub struct ConvFns<T> {
+    pub full_ref: fn(&T) -> Box<dyn Inst>,
+    pub dec_ref: fn(&T) -> Box<dyn Inst>,
+    pub full_val: fn(T) -> Box<dyn Inst>,
+    pub dec_val: fn(T) -> Box<dyn Inst>,
+}
+
 /// A live instance together with its capability vtables.
 pub struct Wrap<T: BlockSizeUser + 'static> {
     pub t: T,
@@ -277,9 +298,29 @@ pub struct Wrap<T: BlockSizeUser + 'static> {
     pub d: &'static (dyn DecDyn<T> + Send + Sync),
     pub c: &'static (dyn CloneDyn<T> + Send + Sync),
     pub g: &'static (dyn DbgDyn<T> + Send + Sync),
+    pub v: Option<&'static ConvFns<T>>,
 }
 
 impl<T: BlockSizeUser + Send + Sync + 'static> Inst for Wrap<T> {
+    fn convert_ref(&self, target: Target) -> Option<Box<dyn Inst>> {
+        let v = self.v?;
+        Some(match target {
+            Target::Full => (v.full_ref)(&self.t),
+            Target::Dec => (v.dec_ref)(&self.t),
+        })
+    }
+    fn convert_val(self: Box<Self>, target: Target) -> Result<Box<dyn Inst>, Box<dyn Inst>> {
+        match self.v {
+            None => Err(self),
+            Some(v) => {
+                let w = *self;
+                Ok(match target {
+                    Target::Full => (v.full_val)(w.t),
+                    Target::Dec => (v.dec_val)(w.t),
+                })
+            }
+        }
+    }
     fn blocks(&self, dir: Dir, data: &mut [u8]) {
         let bs = T::BlockSize::USIZE;
         assert!(data.len() % bs == 0);
@@ -357,7 +398,7 @@ impl<T: BlockSizeUser + Send + Sync + 'static> Inst for Wrap<T> {
         }
     }
     fn try_clone(&self) -> Option<Box<dyn Inst>> {
-        self.c.try_clone(&self.t).map(|t| Box::new(Wrap { t, e: self.e, d: self.d, c: self.c, g: self.g }) as Box<dyn Inst>)
+        self.c.try_clone(&self.t).map(|t| Box::new(Wrap { t, e: self.e, d: self.d, c: self.c, g: self.g, v: self.v }) as Box<dyn Inst>)
     }
     fn debug(&self) -> Option<String> {
         self.g.dbg(&self.t)
@@ -419,6 +460,8 @@ pub struct Gen<T: BlockSizeUser + 'static> {
     pub c: &'static (dyn CloneDyn<T> + Send + Sync),
     pub g: &'static (dyn DbgDyn<T> + Send + Sync),
     pub caps: Caps,
+    /// conversions out of this (encrypt-only) type
+    pub v: Option<&'static ConvFns<T>>,
     pub name_override: Option<String>,
     /// (sibling name, by-value constructor, by-ref constructor) for From<Enc> conversions
     pub conv: Option<(&'static str, fn(&[u8]) -> T, fn(&[u8]) -> T)>,
@@ -429,7 +472,7 @@ where
     T: KeyInit + BlockSizeUser + AlgorithmName + Send + Sync + 'static,
 {
     fn wrap(&self, t: T) -> Box<dyn Inst> {
-        Box::new(Wrap { t, e: self.e, d: self.d, c: self.c, g: self.g })
+        Box::new(Wrap { t, e: self.e, d: self.d, c: self.c, g: self.g, v: self.v })
     }
     /// Build a value through a construction route (None: route not available for this subject / key).
     pub fn build_route(&self, key: &[u8], route: Route) -> Option<T> {
@@ -533,7 +576,7 @@ where
     }
     fn live_byte(&self, key: &[u8], route: Route, off: usize) -> Option<bool> {
         let t = self.build_route(key, route)?;
-        let mut w = Wrap { t, e: self.e, d: self.d, c: self.c, g: self.g };
+        let mut w = Wrap { t, e: self.e, d: self.d, c: self.c, g: self.g, v: self.v };
         if off >= std::mem::size_of::<T>() {
             return Some(false);
         }
